@@ -415,6 +415,11 @@ func decide(o *oblig, file string, opt dischargeOpts) {
 		o.model = fmt.Sprintf("solvers disagree: %s says unsat, %s says sat", unsat.solver, sat.solver)
 	case unsat != nil:
 		o.result, o.solver = "unsat", unsat.solver
+		for i := range results {
+			if results[i].result == "unsat" && results[i].solver != unsat.solver {
+				o.alsoUnsat = append(o.alsoUnsat, results[i].solver)
+			}
+		}
 	case sat != nil:
 		o.result, o.solver, o.model = "sat", sat.solver, sat.model
 	case len(errs) == len(results):
